@@ -113,6 +113,7 @@ func harness_C12_wheel_close() {
 // as broken), Close returns, and the spool entry stays intact for a restart.
 func harness_C12_queue_close() {
 	fsReset()
+	dontRecover = false // production behaviour: the dispatch goroutine recovers panics and marks the entry broken
 	scriptNoVariants, scriptClasses, scriptMsgSym = true, 3, 0
 	dir := qDir()
 	tgt := &scriptTarget{name: "tgt", partial: true}
@@ -146,16 +147,23 @@ func harness_C12_queue_close() {
 		verifFail("C12.spool-entry-marked-broken")
 	}
 	delivered := tgt.committedCount("a@example.org") > 0
-	if !delivered && len(tgt.deliveries) > 0 {
-		// attempted and not delivered: either reported (permanent) or still spooled
-		_, perm := tgt.deliveries[0].faults("a@example.org")
-		if !perm && !qExists(q, "msg1", ".meta") {
-			verifFail("C12.removed-without-terminal-outcome")
+	terminal := delivered
+	for _, dl := range tgt.deliveries {
+		if _, perm := dl.faults("a@example.org"); perm {
+			terminal = true
 		}
-		verifCover("C12.attempt-failed-during-shutdown")
 	}
-	if len(tgt.deliveries) == 0 && !qExists(q, "msg1", ".meta") {
+	if len(tgt.deliveries) >= 3 {
+		terminal = true // max_tries exhausted
+	}
+	if !terminal && !qExists(q, "msg1", ".meta") {
 		verifFail("C12.removed-without-terminal-outcome")
+	}
+	if !terminal {
+		verifCover("C12.still-spooled-after-shutdown")
+	}
+	if len(tgt.deliveries) > 0 && !delivered {
+		verifCover("C12.attempt-failed-during-shutdown")
 	}
 	verifCover("C12.queue-close-end")
 }
